@@ -4,6 +4,8 @@ import (
 	gnutar "archive/tar"
 	"bytes"
 	"context"
+	"encoding/binary"
+	"encoding/json"
 	"errors"
 	"fmt"
 	"io"
@@ -18,6 +20,7 @@ import (
 	"time"
 
 	"verif/fw"
+	"verif/ref"
 
 	"github.com/folbricht/desync"
 )
@@ -33,6 +36,19 @@ func runDesyncIn(cwd string, args ...string) (exit int, stdout, stderr []byte, e
 	cmd.Dir = cwd
 	var o, e bytes.Buffer
 	cmd.Stdout, cmd.Stderr = &o, &e
+	cmd.Env = append(os.Environ(), "HOME=/nonexistent-verif-home")
+	rerr := cmd.Run()
+	if ee, ok := rerr.(*exec.ExitError); ok {
+		return ee.ExitCode(), o.Bytes(), e.Bytes(), nil
+	}
+	return 0, o.Bytes(), e.Bytes(), rerr
+}
+
+// runDesyncStdin runs the binary with the given bytes on its standard input.
+func runDesyncStdin(stdin []byte, args ...string) (exit int, stdout, stderr []byte, err error) {
+	cmd := exec.Command(desyncBin(), args...)
+	var o, e bytes.Buffer
+	cmd.Stdin, cmd.Stdout, cmd.Stderr = bytes.NewReader(stdin), &o, &e
 	cmd.Env = append(os.Environ(), "HOME=/nonexistent-verif-home")
 	rerr := cmd.Run()
 	if ee, ok := rerr.(*exec.ExitError); ok {
@@ -1163,6 +1179,200 @@ func runC14ProcSSH(c *fw.Case) {
 				return
 			}
 			dead[s] = true
+		}
+	}
+	c.Outcome("ok")
+}
+
+// C04 at process level: the commands that read an index (list-chunks, info) from a file or from standard input print
+// what the file says and refuse truncated or inconsistent files; `make` writing the index to standard output emits the
+// same bytes as into a file.
+func runC04Proc(c *fw.Case) {
+	c.Probe("process-level-case (real desync binary)")
+	sha256mode := c.Chance(1, 4, "sha256")
+	var pre []string
+	flags := uint64(desync.CaFormatExcludeNoDump)
+	if sha256mode {
+		pre = []string{"--digest", "sha256"}
+	} else {
+		flags |= desync.CaFormatSHA512256
+	}
+	sz := genSizes(c)
+	n := c.Draw(120, "chunks")
+	r := c.Rand("index.seed")
+	idx := desync.Index{Index: desync.FormatIndex{FeatureFlags: flags, ChunkSizeMin: sz.min, ChunkSizeAvg: sz.avg, ChunkSizeMax: sz.max}}
+	var pos uint64
+	for i := 0; i < n; i++ {
+		var id desync.ChunkID
+		for j := range id {
+			id[j] = byte(r.IntN(256))
+		}
+		s := uint64(1 + r.IntN(int(sz.max)))
+		idx.Chunks = append(idx.Chunks, desync.IndexChunk{ID: id, Start: pos, Size: s})
+		pos += s
+	}
+	ri0 := &ref.Index{Flags: flags, Min: sz.min, Avg: sz.avg, Max: sz.max}
+	for _, ch := range idx.Chunks {
+		ri0.Chunks = append(ri0.Chunks, ref.Chunk{ID: [32]byte(ch.ID), Start: ch.Start, Size: ch.Size})
+	}
+	file := ref.EncodeCaibx(ri0)
+	viaStdin := c.Bool("cli.stdin")
+	c.Class(fmt.Sprintf("cli index readers chunks<=%d stdin=%v sha256=%v", (n+15)/16*16, viaStdin, sha256mode))
+	c.NonTrivial()
+	path := filepath.Join(c.Dir(), "x.caibx")
+	run := func(b []byte, cmd string) (int, []byte, []byte, error) {
+		args := append(append([]string{}, pre...), cmd)
+		if viaStdin {
+			return runDesyncStdin(b, append(args, "-")...)
+		}
+		if err := os.WriteFile(path, b, 0644); err != nil {
+			return 0, nil, nil, err
+		}
+		return runDesync(append(args, path)...)
+	}
+	// the intact file
+	exit, out, stderr, err := run(file, "list-chunks")
+	if err != nil {
+		c.HarnessError("%v", err)
+		return
+	}
+	c.SubEval(1)
+	if exit != 0 {
+		c.Violate("valid-index-rejected", "desync list-chunks", "exit %d: %s", exit, tailBytes(stderr, 200))
+		return
+	}
+	var want strings.Builder
+	for _, ch := range idx.Chunks {
+		want.WriteString(ch.ID.String() + "\n")
+	}
+	if string(out) != want.String() {
+		c.Violate("roundtrip-differs", "desync list-chunks", "the printed list of %d bytes is not the table of the index (%d chunks)", len(out), n)
+		return
+	}
+	exit, out, stderr, err = run(file, "info")
+	if err != nil {
+		c.HarnessError("%v", err)
+		return
+	}
+	c.SubEval(1)
+	var info struct {
+		Total int    `json:"total"`
+		Size  uint64 `json:"size"`
+		Min   uint64 `json:"chunk-size-min"`
+		Avg   uint64 `json:"chunk-size-avg"`
+		Max   uint64 `json:"chunk-size-max"`
+	}
+	if exit != 0 || json.Unmarshal(out, &info) != nil {
+		c.Violate("valid-index-rejected", "desync info", "exit %d, output %q: %s", exit, tailBytes(out, 100), tailBytes(stderr, 200))
+		return
+	}
+	if info.Total != n || info.Size != pos || info.Min != sz.min || info.Avg != sz.avg || info.Max != sz.max {
+		c.Violate("roundtrip-differs", "desync info", "info reports total=%d size=%d sizes=%d:%d:%d, the index has %d chunks, %d bytes, %d:%d:%d", info.Total, info.Size, info.Min, info.Avg, info.Max, n, pos, sz.min, sz.avg, sz.max)
+		return
+	}
+	// malformed files are refused by both commands
+	reject := func(b []byte, what string) bool {
+		for _, cmd := range []string{"list-chunks", "info"} {
+			exit, out, _, err := run(b, cmd)
+			if err != nil {
+				c.HarnessError("%v", err)
+				return false
+			}
+			c.SubEval(1)
+			if exit == 0 {
+				c.Violate("malformed-index-accepted", "desync "+cmd+"/"+what[:strings.IndexByte(what+" ", ' ')], "%s, yet `desync %s` exits 0 and prints %d bytes", what, cmd, len(out))
+				return false
+			}
+		}
+		return true
+	}
+	for i := 0; i < 6; i++ {
+		l := c.Draw(len(file), "cut.at")
+		if i == 0 {
+			l = len(file) - 1 - c.Draw(40, "cut.tail")
+		}
+		if l < 0 {
+			l = 0
+		}
+		c.Fault("truncation")
+		if !reject(file[:l], fmt.Sprintf("truncated to %d of %d bytes", l, len(file))) {
+			return
+		}
+	}
+	mut := func(f func(b []byte)) []byte {
+		b := append([]byte(nil), file...)
+		f(b)
+		return b
+	}
+	item := func(i int) int { return 64 + 40*i }
+	if n >= 2 {
+		i := c.Draw(n-1, "swap.i")
+		c.Fault("offsets-swapped")
+		if !reject(mut(func(b []byte) {
+			a, z := binary.LittleEndian.Uint64(b[item(i):]), binary.LittleEndian.Uint64(b[item(i+1):])
+			binary.LittleEndian.PutUint64(b[item(i):], z)
+			binary.LittleEndian.PutUint64(b[item(i+1):], a)
+		}), fmt.Sprintf("offsets-decreasing (items %d and %d swapped)", i, i+1)) {
+			return
+		}
+	}
+	if n >= 1 {
+		i := c.Draw(n, "bump.i")
+		c.Fault("chunk-larger-than-max")
+		if !reject(mut(func(b []byte) {
+			for j := i; j < n; j++ {
+				o := binary.LittleEndian.Uint64(b[item(j):])
+				binary.LittleEndian.PutUint64(b[item(j):], o+sz.max)
+			}
+		}), fmt.Sprintf("chunk-exceeds-max (chunk %d enlarged by max)", i)) {
+			return
+		}
+	}
+	c.Fault("digest-flag-flipped")
+	if !reject(mut(func(b []byte) {
+		f := binary.LittleEndian.Uint64(b[16:])
+		binary.LittleEndian.PutUint64(b[16:], f^desync.CaFormatSHA512256)
+	}), "digest-flag flipped") {
+		return
+	}
+	// make: the index written to standard output is the index written to a file, and the independent chunker's table
+	if c.Bool("cli.make") {
+		msz := sizes{1024, 4096, 16384}
+		blob := genBlob(c, msz, 12*int(msz.max))
+		blobFile := filepath.Join(c.Dir(), "blob")
+		os.WriteFile(blobFile, blob, 0644)
+		fileOut := filepath.Join(c.Dir(), "made.caibx")
+		e1, so, se, err1 := runDesync(append(append([]string{}, pre...), "make", "-m", "1:4:16", "-", blobFile)...)
+		e2, _, _, err2 := runDesync(append(append([]string{}, pre...), "make", "-m", "1:4:16", fileOut, blobFile)...)
+		if err1 != nil || err2 != nil {
+			c.HarnessError("%v %v", err1, err2)
+			return
+		}
+		c.SubEval(1)
+		fb, _ := os.ReadFile(fileOut)
+		if e1 != 0 || e2 != 0 {
+			c.Violate("write-failed", "desync make", "exit %d (stdout) / %d (file): %s", e1, e2, tailBytes(se, 200))
+			return
+		}
+		if !bytes.Equal(so, fb) {
+			c.Violate("stored-bytes-differ", "desync make -", "the index written to standard output (%d bytes) differs from the one written to a file (%d bytes)", len(so), len(fb))
+			return
+		}
+		ri, perr := ref.ParseCaibx(so)
+		if perr != nil {
+			c.Violate("layout", "desync make -", "independent caibx parser rejects the bytes on standard output: %v", perr)
+			return
+		}
+		wantChunks := ref.Chunks(blob, msz.min, msz.avg, msz.max, sha256mode)
+		if len(ri.Chunks) != len(wantChunks) {
+			c.Violate("roundtrip-differs", "desync make -", "index has %d chunks, the independent chunker finds %d", len(ri.Chunks), len(wantChunks))
+			return
+		}
+		for i := range wantChunks {
+			if ri.Chunks[i] != wantChunks[i] {
+				c.Violate("roundtrip-differs", "desync make -", "chunk %d differs from the independent chunker", i)
+				return
+			}
 		}
 	}
 	c.Outcome("ok")
